@@ -460,6 +460,12 @@ void vfps::ProgramOptions::save(std::string fname)
                 ofs << it->first << '='
                     << _vm[it->first].as<bool>()
                     << std::endl;
+            } else if (it->second.value().type()
+                       == typeid(std::vector<integral_t>)) {
+                // multitoken options: one line per value
+                for (auto val : _vm[it->first].as<std::vector<integral_t>>()) {
+                    ofs << it->first << '=' << val << std::endl;
+                }
             } else {
                 std::string val;
                 try {
